@@ -100,6 +100,38 @@ def twin_erase_readers(prop, ops, main, z, opts):
     return [{'property': prop, 'clause': clause, 'at': i, 'detail': detail}]
 
 
+def twin_erase_earlier_readers(prop, ops, main, z, opts):
+    """Second C16 twin: keep the last serialising read, erase every earlier read; the kept read must return
+    what it returned in the full history (a read must not change a later *read* either)."""
+    ev = main['events']
+    ser = [i for i, op in enumerate(ops) if op.get('reader') and op['op'] in ('TO_STRING', 'CHECK') and i < len(ev)]
+    if len(ser) < 1:
+        return []
+    last = ser[-1]
+    earlier = [i for i, op in enumerate(ops) if op.get('reader') and i < last]
+    if not earlier:
+        return []
+    keep = [op for i, op in enumerate(ops) if not (op.get('reader') and i != last)]
+    twin = _replay(z, prop, keep, opts)
+    pos = {op['id']: k for k, op in enumerate(keep)}
+    k = pos[ops[last]['id']]
+    if k >= len(twin['events']):
+        return []
+    a, b = _strip(ev[last]), _strip(twin['events'][k])
+    if a == b:
+        return []
+    kinds = sorted({ops[j]['op'] + ('[ic]' if ops[j].get('ic') else '') for j in earlier})
+    ic = any(ops[j].get('ic') for j in earlier if ops[j]['op'] in ('TO_STRING', 'CHECK'))
+    clause = 'read-changed-later-result[ic]' if ic else 'read-changed-later-result'
+    return [{'property': prop, 'clause': clause, 'at': last,
+             'detail': {'reads_before': kinds, 'op': ops[last]['op'] + ('[ic]' if ops[last].get('ic') else ''), 'later_is_a_read': True,
+                        'with_reads': _short(a), 'without': _short(b)}}]
+
+
+def twin_c16(prop, ops, main, z, opts):
+    return twin_erase_readers(prop, ops, main, z, opts) + twin_erase_earlier_readers(prop, ops, main, z, opts)
+
+
 # ---------------------------------------------------------------------------------- C13 / C14: projection
 def _doc_of(op):
     if 'p' in op:
@@ -175,7 +207,7 @@ def twin_projection(prop, ops, main, z, opts):
 
 TWINS = {
     'C10': twin_erase_failed,
-    'C16': twin_erase_readers,
+    'C16': twin_c16,
     'C13': twin_projection,
     'C14': twin_projection,
 }
